@@ -51,6 +51,8 @@ func main() {
 		}
 	case "vc":
 		os.Exit(cmdVC(os.Args[2:]))
+	case "sweep":
+		os.Exit(cmdSweep(os.Args[2:]))
 	case "check":
 		os.Exit(cmdCheck(os.Args[2:]))
 	case "replay":
